@@ -13,7 +13,10 @@ overhead 16 like AES-GCM) against the real `store.NewOnDiskStore` in a temporary
          h<i> n<i>  flip header / nonce byte i      bf bm bl  flip first / middle / last body byte
          ch<m> cn<m> ca  keep m header bytes / header + m nonce bytes / header + nonce
          ct<m>  drop the last m (1..16) bytes       ap<m>  append m bytes
+         bt  flip the first byte of the last sealed block     cm  cut the last sealed block to its first half
     content:  z<n> zeros | t<n> text | r<n>.<seed> pseudo-random | x<hex>
+              | c<part>+<part>+…  concatenation of z/t/r parts (contents of mixed compressibility: the generator
+                builds them so that a sealed-block boundary coincides with an LZ4 data-block boundary)
     store-size <content> <clen>  size of the file `Set` writes; clen = length of the LZ4 frame of the content
                                  (computed by the generator with the real compressor) -> size <n>
 
@@ -61,8 +64,19 @@ def hexBytes : List Char → Bytes
   | a :: b :: rest => (hexVal a * 16 + hexVal b) :: hexBytes rest
   | _ => []
 
+def parsePart (s : String) : Option Bytes :=
+  match s.toList with
+  | 'z' :: r => some (List.replicate (nat! (String.ofList r)) 0)
+  | 't' :: r => some (textBytes (nat! (String.ofList r)))
+  | 'r' :: r =>
+    match (String.ofList r).splitOn "." with
+    | [n, seed] => some (randBytes (nat! seed) (nat! n))
+    | _ => none
+  | _ => none
+
 def parseContent (s : String) : Option Bytes :=
   match s.toList with
+  | 'c' :: r => (((String.ofList r).splitOn "+").mapM parsePart).map List.flatten
   | 'z' :: r => some (List.replicate (nat! (String.ofList r)) 0)
   | 't' :: r => some (textBytes (nat! (String.ofList r)))
   | 'r' :: r =>
@@ -97,9 +111,13 @@ def flipByte (x : Nat) : Nat := if x % 2 = 0 then x + 1 else x - 1
 def flipAt (f : Bytes) (i : Nat) : Bytes := f.set i (flipByte (f.getD i 0))
 
 /-- the alterations of the dialect, on the bytes of a file -/
-def alter (hl ns : Nat) (f : Bytes) (kind : String) : Option Bytes :=
+def alter (hl ns enc : Nat) (f : Bytes) (kind : String) : Option Bytes :=
   let body := f.length - (hl + ns)
+  -- length of the last sealed block (pieces of `enc` = blockSize + overhead bytes)
+  let lastLen := if body = 0 then 0 else (body - 1) % enc + 1
   match kind.toList with
+  | ['b', 't'] => some (if lastLen = 0 then f else flipAt f (f.length - lastLen))
+  | ['c', 'm'] => some (f.take (f.length - lastLen / 2))
   | ['b', 'f'] => some (flipAt f (hl + ns))
   | ['b', 'm'] => some (flipAt f (hl + ns + body / 2))
   | ['b', 'l'] => some (flipAt f (f.length - 1))
@@ -155,7 +173,7 @@ def stepOp (st : Sim) (op : String) : Sim × String :=
       match st.fs.read (nat! id) with
       | none => (st, "err:notfound")
       | some f =>
-        match alter gluonCfg.header.length prims.nonceSize f kind with
+        match alter gluonCfg.header.length prims.nonceSize (gluonCfg.blockSize + prims.overhead) f kind with
         | some f' => ({ st with fs := st.fs.write (nat! id) f' }, "ok")
         | none => (st, "bad-op")
     | _ => (st, "bad-op")
